@@ -431,7 +431,7 @@ def main(argv=None):
         "explanation": getattr(mod, "EXPLANATION", ""),
     }
     if level != "model_checking":
-        cov["evaluations"] = max(fidelity_run + replays_done, 1)
+        cov["evaluations"] = max(paths + fidelity_run + replays_done, 1)  # one end-to-end concrete run per explored path (+ replays)
         cov["distinct_nontrivial"] = max(getattr(mod, "count_nontrivial", lambda rs: 0)(results), 0)
         cov["rule"] = getattr(mod, "RULE", "")
     ev = {
